@@ -44,16 +44,38 @@ RULE = ("real committed snapshots (single process Snapshot.take into a scratch d
         "Sharded: hand-made ShardedTensorEntry over files written by the harness (own files and slab ranges), "
         "ShardedTensorIOPreparer.prepare_read + batch_read_requests + sync_execute_read_reqs into a sentinel-prefilled "
         "dense tensor. Consumers: tensor_from_memoryview on buffers of every length 0..size+esize for sample dtype/shapes. "
-        "torch.load is validated on every strict prefix of sample archives. A case is non-trivial when the damaged file "
+        "torch.load is validated on every strict prefix of sample archives. Every real observation (consumer verdicts, "
+        "prepare_read plans, restore / read_object / sharded verdicts) is compared BOTH with the hand-written model "
+        "(model/ReadDamage.v) and with the terms regenerated from the source on this run (gen/ReadPathGen.v by "
+        "translator/gen_readpath.py, gen/StreamGen.v by translator/gen_stream.py, wired in model/ReadPathGenObs.v); in "
+        "addition the real batch_read_requests applied to the real prepare_read output (whole manifest; single entries "
+        "with limits 8 / 20) is compared with the generated planner + generated batch_read_requests (which requests are "
+        "merged, merged extent, sub-range per consumer). A case is non-trivial when the damaged file "
         "is read by the call; distinct by (snapshot layout, file role, damage class, api, batching, limit).")
 TRUSTED = [
     "Coq 8.16.1 kernel and its vm_compute VM (no native_compute)",
-    "hand-written model coq/model/ReadDamage.v (on top of model/Batch.v, model/Chunk.v, model/FsStream.v) tied to the code by "
-    "differential runs (this harness); torch.frombuffer / torch.reshape / Tensor.copy_ / the OS file system are runtime, "
-    "modelled not verified",
+    "translator/gen_readpath.py (Python ast -> Gallina, fail closed, regenerated from the source tree on every run): "
+    "tensor_from_memoryview, torch_load_from_bytes, TensorBufferConsumer.deserialize_tensor / consume_buffer, "
+    "ShardedTensorBufferConsumer.consume_buffer, ObjectBufferConsumer.consume_buffer, BatchedBufferConsumer.consume_buffer "
+    "(slice per sub-consumer, asyncio.wait + result retrieval / gather), batch_read_requests statement by statement, "
+    "prepare_read of the tensor / chunked / sharded / object preparers (path, byte range and entry of every ReadReq), "
+    "_ReadPipeline.read_buffer / consume_buffer and the `d.result()` retrieval in both completion branches of "
+    "execute_read_reqs; translator/gen_stream.py for FSStoragePlugin.read (C20). proofs/ReadPathInst.v proves every "
+    "generated definition equal to the hand-written model definition the theorems were proved for, and "
+    "props/C04.v restates the theorems over the generated run; each generated term is also exercised by a correspondence",
+    "vocabulary of the generated terms, hand-written and modelled not verified (model/ReadPathPrims.v): torch.empty / "
+    "torch.frombuffer / torch.reshape acceptance conditions (validated on every run by the consumer correspondence on "
+    "buffers of every length), Python dict / defaultdict(list) with insertion order, tensor_copy stores the source's "
+    "content, the representation of ReadReq / consumer objects, prepare_read_tiled (tile arithmetic: C16, gen/ChunkGen.v)",
+    "wiring of the generated pieces (model/ReadPathGenObs.v, exercised by the correspondences): aiofiles.open raises for a "
+    "missing file, dynamic dispatch of consume_buffer / prepare_read, consumer ids, batching applied by restore always "
+    "and by read_object only without memory budget",
+    "the scheduling loop of execute_read_reqs (every pipeline is dispatched and consumed exactly once, the loop "
+    "terminates) is C11's: C11_read_exactly_once, C11_read_failure_raises (props/C11.v over gen/SchedGen.v); C04 "
+    "translates what makes a failed task fatal (result retrieval) and what each pipeline reads and consumes",
+    "hand-written model coq/model/ReadDamage.v (on top of model/Batch.v, model/Chunk.v, model/FsStream.v): now the "
+    "SPECIFICATION side of the instantiation lemmas; still compared with the real code by the differential runs",
     "torch.load / torch.save are external: Section variables load/save with the assumed law below (validated every run)",
-    "the read pipeline is abstracted as 'every request is read and consumed exactly once, the first error is raised': "
-    "C11_read_exactly_once, C11_read_failure_raises (props/C11.v)",
     "harness/props/C04.py generators, oracle, canonicalisation and lib/tocoq.py literal printer",
 ]
 ASSUMPTIONS = [
@@ -65,6 +87,10 @@ ASSUMPTIONS = [
     "entries have no byte_range; two entries never name the same location with the same non-empty range",
     "restore reads every entry of the rank's manifest for every key of app_state (Snapshot._load_stateful does not filter "
     "the manifest by key): every payload file of the rank is 'needed' by restore",
+    "an asyncio task's exception is re-raised by task.result() and by awaiting asyncio.gather(*tasks), and is NOT raised by "
+    "asyncio.wait(tasks) alone (the semantics the translator gives to these three forms)",
+    "serializers other than torch_save / buffer_protocol (quantized tensors) are outside the model: the translator maps "
+    "them to the `raise` branch of deserialize_tensor",
 ]
 
 IMPORTS = "From TS Require Import model.Batch model.ReadDamage.\n"
@@ -600,7 +626,8 @@ def sweep(ctx: Ctx, res: Result, S: Snap, cases: dict, deadline: float, every_le
                                 kind, wrong, exc = run_read_object(S, copy, p, batching, limit, inplace)
                                 judge(res, S, "read_object", p, rel, dmg, batching, limit, inplace, kind, wrong, damaged, exc)
                                 if p in touching or rng.random() < 0.2:
-                                    key = call_case(S.files, S.archives, S.fid, [e], limit, rel, dmg, batching)
+                                    # Snapshot.read_object batches only when no memory budget is given
+                                    key = call_case(S.files, S.archives, S.fid, [e], limit, rel, dmg, batching and limit is None)
                                     note_case(res, cases, key, verdict_int(kind),
                                               {"api": "read_object", "path": p, "spec": S.spec, "file_role": S.file_role(rel),
                                                "damage": list(dmg), "batching": batching, "limit": limit})
@@ -1139,20 +1166,30 @@ def replay(ctx: Ctx, data):
 
 
 MANIFEST = {
-    "level_text": ("Machine-checked proof (Coq 8.16.1) over an executable model of the read path under payload damage: storage "
-                   "objects that are deleted or truncated at any length, the FS ranged read on a short file, the length checks "
-                   "of the tensor / sharded / object consumers, BatchedBufferConsumer (errors propagated; the pre-fix variant "
-                   "is kept as a refuted witness), read batching on and off, plain / chunked / tiled / sharded / object "
-                   "entries. Theorems: a damaged needed range always raises; no damaged needed range => Ok with exactly the "
-                   "saved values; truncation at or above everything read from an object changes nothing. The model is tied to "
-                   "the code on every run by differential execution of the real Snapshot.restore / read_object on damaged "
-                   "copies of real committed snapshots against the model inside coqc (vm_compute)."),
-    "level_note": ("Trusted: Coq kernel + VM; hand-written model coq/model/ReadDamage.v (+ Batch.v, Chunk.v, FsStream.v) and the "
-                   "differential harness; torch.load/torch.save enter as Section variables with the assumed law 'load accepts the "
-                   "saved archive and rejects every strict prefix' (validated on every run at every truncation length of sample "
-                   "archives); the read pipeline is abstracted by C11's exactly-once / failure-raises theorems; torch tensor "
-                   "runtime and the OS file system are modelled, not verified."),
-    "technique": "Coq proof (list/slice lemmas on top of the C16 batching theorems) with vm_compute correspondence against real "
-                 "restore/read_object on damaged snapshot copies",
+    "level_text": ("Machine-checked proof (Coq 8.16.1) about the read path under payload damage, stated both over an "
+                   "executable hand model and over terms REGENERATED FROM THE SOURCE on every run: a Python-ast -> Gallina "
+                   "translator (fail closed) produces tensor_from_memoryview's length / shape acceptance, the serializer "
+                   "dispatch of deserialize_tensor, what the tensor / sharded / object consumers deserialise and store, "
+                   "BatchedBufferConsumer (slice per sub-consumer, result retrieval), batch_read_requests statement by "
+                   "statement (grouping, merged extent min lo / max hi, relative sub-ranges), the ReadReq each io preparer "
+                   "emits, what a read pipeline reads and consumes and that execute_read_reqs retrieves the result of every "
+                   "read and consume task; FSStoragePlugin.read comes from C20's translator. Instantiation lemmas "
+                   "(proofs/ReadPathInst.v) prove each generated definition equal to the model definition, and the theorems "
+                   "are restated over the generated run: a damaged needed range always raises; no damaged needed range => "
+                   "Ok with exactly the saved values; truncation at or above everything read from an object changes nothing; "
+                   "batching on and off; plain / chunked / tiled / sharded / object entries; the pre-fix BatchedBufferConsumer "
+                   "is kept as a refuted witness. Hand model and generated terms are both compared with the real "
+                   "Snapshot.restore / read_object on damaged copies of real committed snapshots inside coqc (vm_compute)."),
+    "level_note": ("Trusted: Coq kernel + VM; the translators gen_readpath / gen_stream and the vocabulary they emit "
+                   "(model/ReadPathPrims.v: torch.empty/frombuffer/reshape acceptance, dict semantics, ReadReq "
+                   "representation - validated by the correspondences); the wiring of model/ReadPathGenObs.v; "
+                   "torch.load/torch.save enter as Section variables with the assumed law 'load accepts the saved archive "
+                   "and rejects every strict prefix' (validated on every run at every truncation length of sample archives); "
+                   "the scheduling loop is abstracted by C11's exactly-once / failure-raises theorems; asyncio task "
+                   "semantics (result() re-raises, wait() does not); torch tensor runtime and the OS file system are "
+                   "modelled, not verified."),
+    "technique": "Python-ast -> Gallina translation of the read path + Coq instantiation lemmas (fold invariants over "
+                 "insertion-ordered dicts, list/slice lemmas on top of the C16 batching theorems) + vm_compute "
+                 "correspondence of hand model and generated terms against real restore/read_object on damaged snapshot copies",
     "design_ref": "DESIGN.md section 5, C04",
 }
